@@ -52,6 +52,7 @@ class Unit:
         self.trusted = []      # external_body / axiom / assume lines
         self.casts = {}
         self.lemmas = []
+        self.lost_hints = {}
 
     def emit(self, text, origin):
         for l in text.split("\n"):
@@ -148,7 +149,7 @@ def build(unit_path, repo):
                     raise ExtractError("%s:%d: unterminated @verbatim" % (unit_path, i + 1))
             u.emit("\n".join(buf), ("spec", "%s:%d" % (os.path.basename(unit_path), i + 2)))
             i = j + 1
-        elif d in ("@fn", "@macrofn", "@slice", "@struct"):
+        elif d in ("@fn", "@macrofn", "@slice", "@struct", "@closure"):
             # collect the function's own directives
             spec = FnSpec()
             j = i + 1
@@ -162,6 +163,8 @@ def build(unit_path, repo):
                 dd = p2[0]
                 aa = p2[1] if len(p2) > 1 else ""
                 base = dd.split("[")[0].split("/")[0]
+                if dd.startswith(("@before?", "@after?")):
+                    base = dd[:dd.index("?") + 1]
                 if base == "@props":
                     spec.props = aa.split(); j += 1
                 elif base == "@ret":
@@ -187,14 +190,28 @@ def build(unit_path, repo):
                     text = "\n".join([m.group(4)] + cl)
                     spec.loops.setdefault(int(m.group(1)), []).append(Clause(m.group(2), cid, props, text, None))
                     j = j2
-                elif base in ("@before", "@after"):
-                    nth = int(dd.split("/")[1]) if "/" in dd else 1
+                elif base in ("@loopend", "@loopstart", "@loopbefore"):
+                    k_ = int(aa.strip())
+                    cl, j2 = cont_lines(j)
+                    spec.inserts.append((base[1:], k_, None, cl))
+                    j = j2
+                elif base == "@tail":
+                    cl, j2 = cont_lines(j)
+                    spec.inserts.append(("tail", 1, None, cl))
+                    j = j2
+                elif base in ("@before", "@after", "@before?", "@after?"):
+                    nth = int(dd.split("/")[1].split("[")[0]) if "/" in dd else 1
+                    opt_props = None
+                    if base.endswith("?"):
+                        mo = re.search(r"\[([^\]]*)\]", dd)
+                        opt_props = [x for x in (mo.group(1) if mo else "").split(",") if x]
+                        base = base[:-1]
                     m = re.match(r'\s*"((?:[^"\\]|\\.)*)"', aa)
                     if not m:
                         raise ExtractError("%s:%d: bad %s" % (unit_path, j + 1, base))
                     needle = m.group(1).replace('\\"', '"')
                     cl, j2 = cont_lines(j)
-                    spec.inserts.append((base[1:], nth, needle, cl))
+                    spec.inserts.append((base[1:], nth, needle, cl) if opt_props is None else (base[1:], nth, needle, cl, opt_props))
                     j = j2
                 else:
                     break
@@ -267,6 +284,27 @@ def _extract(u, repo, d, arg, spec, groups, where):
         raw = "fn " + toks[3] + " " + src[s:e]
         name = re.match(r"\s*(\w+)", toks[3]).group(1)
         _count(u, "R12")
+    elif d == "@closure":
+        # R13 (structural form): the body of the N-th closure passed to `.ADAPTER(` inside a function
+        # @closure FILE IMPL_RE FN ADAPTER NTH SIG
+        impl_re = None if toks[1] == "-" else toks[1]
+        fs, fe = R.find_fn(src, toks[2], impl_re)
+        body = src[fs:fe]
+        bb = R.blank(body)
+        hits = [m for m in re.finditer(r"\.\s*%s\s*\(" % re.escape(toks[3]), bb)]
+        nth = int(toks[4])
+        if len(hits) < nth:
+            raise ExtractError("%s: %s has no %d-th .%s( call" % (where, toks[2], nth, toks[3]))
+        o = hits[nth - 1].end() - 1
+        c = R.match_close(bb, o)
+        mcl = re.match(r"\s*(?:move\s+)?\|[^|]*\|\s*", bb[o + 1:c])
+        if not mcl:
+            raise ExtractError("%s: argument of .%s( is not a closure" % (where, toks[3]))
+        s = fs + o + 1 + mcl.end()
+        e = fs + c
+        raw = "fn " + toks[5] + " {\n" + src[s:e] + "\n}"
+        name = re.match(r"\s*(\w+)", toks[5]).group(1)
+        _count(u, "R13")
     elif d == "@slice":
         impl_re = None if toks[1] == "-" else toks[1]
         fs, fe = R.find_fn(src, toks[2], impl_re)
@@ -286,7 +324,7 @@ def _extract(u, repo, d, arg, spec, groups, where):
         name = re.match(r"\s*(\w+)", toks[5]).group(1)
         _count(u, "R13")
     line0 = R.line_of(src, s)
-    if d == "@slice":
+    if d in ("@slice", "@closure"):
         line0 -= 1
     text = R.strip_comments(raw)
     text = _apply_rules(u, text, groups, spec.rules, u.casts, spec.prerules)
@@ -324,11 +362,13 @@ def _splice(u, text, spec, file, line0, name, where):
     bb = R.blank(body)
     # loops: textual order of `for`/`while`/`loop` keywords
     loop_pos = []
+    loop_kw = []
     for m in re.finditer(r"\b(for|while|loop)\b", bb):
         if m.group(1) == "for" and not re.match(r"\s+[\w(_&]", bb[m.end():m.end() + 3]):
             continue
         o = R.find_body_open(bb, m.end())
         loop_pos.append(o)
+        loop_kw.append(m.start())
     for k in spec.loops:
         if k < 1 or k > len(loop_pos):
             raise ExtractError("%s: loop %d not found in %s (has %d loops)" % (where, k, name, len(loop_pos)))
@@ -339,12 +379,49 @@ def _splice(u, text, spec, file, line0, name, where):
     body_lines_start = [0]
     for m in re.finditer(r"\n", body):
         body_lines_start.append(m.end())
-    for (kind, nth, needle, lines) in spec.inserts:
+    for ins_ in spec.inserts:
+        (kind, nth, needle, lines) = ins_[:4]
+        opt_props = ins_[4] if len(ins_) > 4 else None
+        if kind == "tail":
+            # before the line of the function's tail expression = last non-blank line before the closing brace
+            c = R.match_close(bb, 0)
+            j = c
+            while True:
+                ls = body.rfind("\n", 0, j) + 1
+                if body[ls:j].strip() and body[ls:j].strip() != "}":
+                    break
+                j = ls - 1
+                if j <= 0:
+                    raise ExtractError("%s: no tail expression in %s" % (where, name))
+            ins.append((ls, ("text", lines)))
+            continue
+        if kind == "loopbefore":
+            if nth < 1 or nth > len(loop_pos):
+                raise ExtractError("%s: loop %d not found in %s" % (where, nth, name))
+            kw = loop_kw[nth - 1]
+            ins.append((body.rfind("\n", 0, kw) + 1, ("text", lines)))
+            continue
+        if kind in ("loopend", "loopstart"):
+            if nth < 1 or nth > len(loop_pos):
+                raise ExtractError("%s: loop %d not found in %s" % (where, nth, name))
+            o = loop_pos[nth - 1]
+            if kind == "loopstart":
+                ins.append((o + 1, ("text", lines)))
+            else:
+                c = R.match_close(bb, o)
+                # start of the line holding the closing brace
+                ins.append((body.rfind("\n", 0, c) + 1, ("text", lines)))
+            continue
         def _hit(line):
             return re.search(needle[3:], line) is not None if needle.startswith("re:") else needle in line
         hits = [ls for ls in body_lines_start
                 if _hit(body[ls:(body.find("\n", ls) if body.find("\n", ls) >= 0 else len(body))])]
         if len(hits) < nth:
+            if opt_props is not None:
+                # optional anchor: the hint is skipped and the properties it serves become undecided (never an alarm)
+                for pp in opt_props:
+                    u.lost_hints.setdefault(pp, []).append("%s: anchor \"%s\" in %s" % (where, needle, name))
+                continue
             raise ExtractError("%s: anchor \"%s\" (#%d) not found in %s" % (where, needle, nth, name))
         ls = hits[nth - 1]
         if kind == "before":
